@@ -28,7 +28,8 @@ ASSUMPTIONS = ["gradient error = relative RMS over B=128 paths of the per-path g
                "closed-form gradients by autograd through vt/closed_forms.py exact solutions"]
 REQUIRED_COUNTERS = ["forward_equal_checks", "logqp_forward_checks", "gradient_ladders", "subset_losses",
                      "neural_reference_ladders", "selectivity_cases", "pairs_ito", "pairs_stratonovich",
-                     "forward_list_ts_under_default_f32", "forward_equal_adaptive_checks"]
+                     "forward_list_ts_under_default_f32", "forward_equal_adaptive_checks",
+                     "adjoint_adaptive_gradients"]
 THRESHOLDS = {"slope": 0.2, "final_half": 0.15, "final_one": 0.05, "final_over_first": 0.5, "already_small": 2e-3}
 
 ITO_FWD = ["euler", "milstein", "srk"]
@@ -258,6 +259,26 @@ def run_grad(case):
         errs, dts = errs + e2, dts + d2
         cnt["ladders_extended_after_failed_verdict"] = 1
         sl = _judge(errs, dts, half, ctx + " [ladder extended by 3 levels]", viol, mech)
+    # adjoint_adaptive=True: the backward solves choose their own steps (tolerances 1e-3 / 1e-4, starting from
+    # dt = 2^-6); with the same fixed-step forward pass the gradient must be about as accurate as the fixed-step backward
+    # pass at dt = 2^-6 (observed on the pinned tree: 0.1x - 1.8x of it)
+    if not viol and case["adjoint_method"] != "adjoint_reversible_heun":
+        import torchsde
+        params = [p for p in fam.parameters()]
+        base = torchsde.BrownianInterval(tsl[0], tsl[-1], size=(B, fam.m), entropy=entropy, levy_area_approximation=levy)
+        Gt, _ = true_grad(base, params)
+        y0 = y0v.clone().requires_grad_(True)
+        ys = torchsde.sdeint_adjoint(fam, y0, torch.tensor(tsl), bm=base, method=case["method"],
+                                     adjoint_method=case["adjoint_method"], dt=2.0 ** -6, adjoint_adaptive=True,
+                                     adjoint_rtol=1e-3, adjoint_atol=1e-4)
+        G, _ = _path_grads((ys * w).sum(), y0, params, per_path)
+        e_ad, e_fix = _rel_rms(G, Gt), errs[levels.index(6)]
+        cnt["adjoint_adaptive_gradients"] = 1
+        mx["adjoint_adaptive_err_over_fixed"] = e_ad / max(e_fix, 1e-3)
+        if not e_ad <= 2.0 * e_fix + 2e-3:
+            viol.append({"mechanism": f"adjoint_adaptive_gradient_inaccurate:{st}:{nt}:{case['adjoint_method']}",
+                         "detail": f"error {e_ad:.3e} with adjoint_adaptive (rtol 1e-3, atol 1e-4) vs {e_fix:.3e} with the "
+                                   f"fixed-step backward pass at dt=2^-6 {ctx}"})
     cnt["gradient_ladders"] = 1
     cnt["subset_losses"] = int(subset != "all")
     cnt[f"pairs_{st}"] = 1
